@@ -76,3 +76,9 @@ claim("C03",
  "symbolic execution of go/ssa + SMT over symbolic coordinates; getter outcomes and persistence faults as explored decisions",
  "DESIGN.md 6/C03",
  "Quick: 2x2 square, amount 2 or 5; thorough: also 4x4 and amounts 1,3. Not covered: uniformity/unpredictability of crypto/rand (probabilistic), concurrent calls for one height (sessions), loss of buffered autobatch writes on crash.")
+
+claim("C16",
+ "Bounded symbolic model checking of the repository's header validation glue (ExtendedHeader.Validate, Verify, Hash, MsgID) with every compared field symbolic (64-bit heights, app version, digests) and every cometbft/celestia-app verdict an arbitrary boolean over an ideal injective hash: Validate answers nil exactly when all basic checks pass, the app version is supported, validator set and DAH hash to the committed fields, the commit has this header's height and hash, and VerifyCommitLight was asked about THIS validator set, commit, block id, chain and height; Verify answers nil exactly for a linked adjacent header or a positive trusting verdict of the trusted set over the untrusted commit at 1/3, classifying only 'not enough power' as soft; the gossip id of a decodable message is its commit's block id.",
+ "symbolic execution of go/ssa + SMT; library verification functions are ideal verdict stubs that record their operands",
+ "DESIGN.md 6/C16",
+ "Not covered: binary/JSON re-encoding (generated protobuf and reflection-based tmjson are outside the encoder), the cometbft signature and voting-power arithmetic itself.")
